@@ -122,6 +122,33 @@ def discharge(fx, O, s):
                     return "dominated by index < len() of the same receiver"
                 if ln is not None and sym.norm(sym.strip(c)) == sym.norm(ln):
                     return "dominated by index < the checked length"
+    # (c) a constant index into an item of `x.windows(n)` / `x.chunks_exact(n)`: every item has exactly n elements
+    if idx[0] == "c" and isinstance(idx[1], int) and recv is not None:
+        r0 = recv
+        while r0[0] in ("field", "variant", "ref", "deref"):
+            r0 = sym.strip(r0[1])
+        if r0[0] == "call" and (r0[4] or r0[1] or "").endswith(("Iterator::next", "DoubleEndedIterator::next_back")):
+            adaptors = ("Iterator::next", "DoubleEndedIterator::next_back", "Iterator::enumerate", "Iterator::rev", "IntoIterator::into_iter", "Iterator::skip",
+                        "Iterator::take", "Iterator::peekable", "Iterator::by_ref", "Iterator::zip")
+            cur, ok_chain, n_items = r0, True, None
+            for _ in range(12):
+                nm = cur[4] or cur[1] or ""
+                if nm.endswith(("::windows", "::chunks_exact")) and len(cur[2]) == 2:
+                    k = sym.strip(cur[2][1])
+                    n_items = k[1] if k[0] == "c" and isinstance(k[1], int) else None
+                    break
+                if not nm.endswith(adaptors) or not cur[2]:
+                    ok_chain = False
+                    break
+                nxt = sym.strip(cur[2][0])
+                while nxt[0] in ("ref", "deref"):
+                    nxt = sym.strip(nxt[1])
+                if nxt[0] != "call":
+                    ok_chain = False
+                    break
+                cur = nxt
+            if ok_chain and n_items is not None and 0 <= idx[1] < n_items:
+                return "constant index %d into an item of windows(%d)/chunks_exact(%d)" % (idx[1], n_items, n_items)
     # (b) the index is the payload of `opt.filter(|&i| i < x.len())` with x the same receiver: only in-range values survive the filter
     if idx[0] == "field" and idx[1][0] == "variant" and idx[1][2] == "Some" and nrecv is not None:
         c = sym.strip(idx[1][1])
@@ -166,7 +193,7 @@ def rule_index(run, fx, rule="C01-g", floors=True, select=None, floor_n=250):
         if why:
             run.ok(rule, "%s: %s" % (s.b.path, why))
         else:
-            run.fail(rule, s.key(), "element indexing of %s in %s is neither discharged by a dominating bound check nor audited" % (short_ty(s.recv_ty), s.b.path), s.loc(), ledger="index")
+            run.fail(rule, s.key(), "element indexing of %s in %s is neither discharged by a dominating bound check nor audited" % (short_ty(s.recv_ty), s.b.path), s.loc(), ledger="index", alt_keys=fx.alt_keys(s.b, s.key()))
     if floors:
         run.floor(rule, "element indexing sites", n, floor_n)
     return n
